@@ -311,7 +311,21 @@ class C13(Oracle):
         if k in ops.RESTART or k in ops.CACHE:
             return v
         m = self.m
-        verdict, why = m.predict(op, pre)
+        if getattr(self, "off", False):
+            return v
+        if op.get("_nojudge"):
+            # a call with an invalid ARGUMENT (fault catalogue): the model has no
+            # verdict on it, but a refused call must not move the typestate, which
+            # the predicates / available_channels comparison below decides
+            verdict, why = DC, "invalid argument"
+            if out.ok:
+                # accepted after all: the model cannot follow an unknown effect
+                self.off = True
+                ctx.stats["model_off_after_accepted_bad_call"] += 1
+                return v
+            ctx.probe("refused_bad_argument_call")
+        else:
+            verdict, why = m.predict(op, pre)
         modekey = f"{m.mode or 'none'}{'+meas' if m.measured else ''}{'+param' if m.parametrized else ''}"
         ch = op.get("ch")
         if ch in m.chans and m.chans[ch]["in_eom"]:
@@ -385,6 +399,7 @@ class TypestateActor:
             "set_magnetic_field": 0.2,
             "measure": 0.35,
             "declare_variable": 0.3 if self.nvar < 2 else 0,
+            "bad_argument": 1.2,
         }
         if names:
             kinds.update({
@@ -395,6 +410,14 @@ class TypestateActor:
             if ctx.sut.vars:
                 kinds.update({"add_var": 0.8, "delay_var": 0.4})
         k = G.wpick(rng, kinds)
+        if k == "bad_argument":
+            from .. import faults
+
+            cat = faults.bad_calls(snap, ctx)
+            if not cat:
+                return {"op": "obs_str"}
+            tag, op = cat[rng.randrange(len(cat))]
+            return dict(op, _nojudge=True, _bad=tag)
         if k == "declare_channel":
             ids = list(dev.channels)
             cid = G.pick(rng, ids)
